@@ -9,7 +9,7 @@ import ForML.Lemmas.C03Ops
 
 namespace ForML.Compose
 
-structure MRInv (gL : Graph) (WL : World) (N reducer : Nat) (va vt : Val) (st : Actor → Val)
+structure MRInv (gL : Graph) (WL : World) (left : Trunk) (R : Nat) (N reducer : Nat) (va vt : Val) (st : Actor → Val)
     (g : Graph) (W : World) (done : List Actor) (insA insT : Nat → PubRef) : Prop where
   inv : Inv g W
   frame : Frame gL g
@@ -19,8 +19,8 @@ structure MRInv (gL : Graph) (WL : World) (N reducer : Nat) (va vt : Val) (st : 
   kT : g.kindOf (gL.next + 2) = some (.worker (gL.next + 1) ⟨reducer, false⟩ N 1)
   nlA : ¬ W.live gL.next
   nlT : ¬ W.live (gL.next + 2)
-  inA : ∀ k, k < done.length → g.inputOf gL.next k = some (insA k) ∧ RefOk W (insA k) (gL.next + 1)
-  inT : ∀ k, k < done.length → g.inputOf (gL.next + 2) k = some (insT k) ∧ RefOk W (insT k) (gL.next + 1)
+  inA : ∀ k, k < done.length → g.inputOf gL.next k = some (insA k) ∧ RefOk W (insA k) (R + 1)
+  inT : ∀ k, k < done.length → g.inputOf (gL.next + 2) k = some (insT k) ∧ RefOk W (insT k) (R + 1)
   freeA : ∀ k, done.length ≤ k → g.inputOf gL.next k = none
   freeT : ∀ k, done.length ≤ k → g.inputOf (gL.next + 2) k = none
   valA : (List.range done.length).map (fun k => W.σ (insA k)) = done.map (fun m => applied m (st m) va)
@@ -29,6 +29,17 @@ structure MRInv (gL : Graph) (WL : World) (N reducer : Nat) (va vt : Val) (st : 
   trains : ∃ ts, g.trains = gL.trains ++ ts ∧ (∀ t ∈ ts, W.live t.train.node ∧ W.live t.label.node) ∧
     ts.map (trainedUnder W) = (done.filter (·.stateful)).map (fun m => (m.tag, st m))
   fresh : ∀ n, gL.next ≤ n → W.live n → ∀ gid a i o, g.kindOf n = some (.worker gid a i o) → gL.next ≤ gid
+  wired : Wired g
+  rankNew : ∀ n, gL.next ≤ n → W.live n → W.h n = R
+  /-- every subscription of a node created here: a reducer port, or an applier fed by the left apply / train tail -/
+  cls : ∀ n k q, gL.next ≤ n → g.inputOf n k = some q →
+    (n = gL.next ∧ k < done.length ∧ q = insA k) ∨ (n = gL.next + 2 ∧ k < done.length ∧ q = insT k) ∨
+    (n ≠ gL.next ∧ n ≠ gL.next + 2 ∧ W.live n ∧ q = left.apply.publisher ∧
+      ∀ k' q', g.inputOf n k' = some q' → q' = left.apply.publisher) ∨
+    (n ≠ gL.next ∧ n ≠ gL.next + 2 ∧ W.live n ∧ q = left.train.publisher ∧
+      ∀ k' q', g.inputOf n k' = some q' → q' = left.train.publisher)
+  srcA : ∀ k, k < done.length → gL.next + 3 ≤ (insA k).node ∧ g.inputOf (insA k).node 0 = some left.apply.publisher
+  srcT : ∀ k, k < done.length → gL.next + 3 ≤ (insT k).node ∧ g.inputOf (insT k).node 0 = some left.train.publisher
 
 theorem range_map_update {α} (n : Nat) (f : Nat → α) (x : α) :
     (List.range (n + 1)).map (fun k => if k = n then x else f k) = (List.range n).map f ++ [x] := by
@@ -40,16 +51,18 @@ theorem range_map_update {α} (n : Nat) (f : Nat → α) (x : α) :
     simp [this]
   · simp
 
-theorem mr_loop {gL : Graph} {WL : World} (hiL : Inv gL WL) (left : Trunk) (N reducer : Nat) (va vt vl : Val)
+theorem mr_loop {gL : Graph} {WL : World} (hiL : Inv gL WL) (left : Trunk) (R : Nat) (hRle : R ≤ gL.next)
+    (N reducer : Nat) (va vt vl : Val)
     (hla : WL.live left.apply.tail ∧ WL.σ ⟨left.apply.tail, 0⟩ = va)
     (hlt : WL.live left.train.tail ∧ WL.σ ⟨left.train.tail, 0⟩ = vt)
-    (hll : WL.live left.label.tail ∧ WL.σ ⟨left.label.tail, 0⟩ = vl) :
+    (hll : WL.live left.label.tail ∧ WL.σ ⟨left.label.tail, 0⟩ = vl)
+    (hra : WL.h left.apply.tail < R) (hrt : WL.h left.train.tail < R) (hrl : WL.h left.label.tail < R) :
     ∀ (ms : List Actor) (g : Graph) (W : World) (done : List Actor) (insA insT : Nat → PubRef),
-      MRInv gL WL N reducer va vt (fun m => trainedState m vt vl) g W done insA insT →
+      MRInv gL WL left R N reducer va vt (fun m => trainedState m vt vl) g W done insA insT →
       ∃ g' W' insA' insT',
         Run (mapReduceLoop left ⟨gL.next, gL.next + 1, ⟨reducer, false⟩, N, 1⟩
           ⟨gL.next + 2, gL.next + 1, ⟨reducer, false⟩, N, 1⟩ done.length ms) g () g' ∧
-        MRInv gL WL N reducer va vt (fun m => trainedState m vt vl) g' W' (done ++ ms) insA' insT' := by
+        MRInv gL WL left R N reducer va vt (fun m => trainedState m vt vl) g' W' (done ++ ms) insA' insT' := by
   intro ms
   induction ms with
   | nil =>
@@ -60,14 +73,14 @@ theorem mr_loop {gL : Graph} {WL : World} (hiL : Inv gL WL) (left : Trunk) (N re
     -- the three tails of the left trunk, seen from `W`
     have hltL : ∀ n, WL.live n → n < gL.next := fun n hn => (hiL.liveLt n hn).1
     have hltW : ∀ n, W.live n → n < g.next := fun n hn => (h.inv.liveLt n hn).1
-    have tail : ∀ (u : Nat) (v : Val), WL.live u → WL.σ ⟨u, 0⟩ = v →
-        RefOk W ⟨u, 0⟩ gL.next ∧ W.σ ⟨u, 0⟩ = v := by
-      intro u v hl hv
+    have tail : ∀ (u : Nat) (v : Val), WL.live u → WL.σ ⟨u, 0⟩ = v → WL.h u < R →
+        RefOk W ⟨u, 0⟩ R ∧ W.σ ⟨u, 0⟩ = v := by
+      intro u v hl hv hr
       obtain ⟨a1, a2, a3⟩ := h.agree u (hltL u hl)
-      exact ⟨⟨a1.mpr hl, by rw [a2]; exact (hiL.liveLt u hl).2⟩, by rw [a3 0]; exact hv⟩
-    obtain ⟨ra, wa⟩ := tail _ _ hla.1 hla.2
-    obtain ⟨rt, wt⟩ := tail _ _ hlt.1 hlt.2
-    obtain ⟨rl, wl⟩ := tail _ _ hll.1 hll.2
+      exact ⟨⟨a1.mpr hl, by rw [a2]; exact hr⟩, by rw [a3 0]; exact hv⟩
+    obtain ⟨ra, wa⟩ := tail _ _ hla.1 hla.2 hra
+    obtain ⟨rt, wt⟩ := tail _ _ hlt.1 hlt.2 hrt
+    obtain ⟨rl, wl⟩ := tail _ _ hll.1 hll.2 hrl
     have hge := h.next_ge
     have hb := h.inv.bounded
     have hk0 : ∀ u, g.next ≤ u → g.kindOf u = none := fun u hu => hb.kindOf_none hu
@@ -124,6 +137,83 @@ theorem mr_loop {gL : Graph} {WL : World} (hiL : Inv gL WL) (left : Trunk) (N re
       show ge.trainerOf gid = _
       exact trainIf_trainerOf _ _ _ _ _ gid
     have hngg : gg.next = ge.next := rfl
+    have fr_b : ga.inputOf g.next 0 = none := by glook [hin0]
+    have fr_d : gc.inputOf (g.next + 2) 0 = none := by
+      glook [hin0] <;> omega
+    have fr_f : ge.inputOf gL.next done.length = none := by
+      show (trainIf _ _ _ _ gd).inputOf _ _ = none
+      rw [trainIf_inputOf, hfd.input _ _ (by omega)]
+      exact h.freeA _ (Nat.le_refl _)
+    have fr_g : gf.inputOf (gL.next + 2) done.length = none := by
+      show (ge.pushEdge _).inputOf (gL.next + 2) done.length = none
+      rw [inputOf_pushEdge]
+      show ((trainIf _ _ _ _ gd).inputOf _ _).or _ = none
+      rw [trainIf_inputOf, hfd.input _ _ (by omega), h.freeT _ (Nat.le_refl _)]
+      have : ¬ (gL.next = gL.next + 2 ∧ done.length = done.length) := by omega
+      simp [this]
+    have hltLa : left.apply.tail < g.next := hltW _ ra.1
+    have hltLt : left.train.tail < g.next := hltW _ rt.1
+    have hwgg : Wired gg := by
+      have w1 : Wired gd :=
+        (((h.wired.bump.bump.pushNode _).pushEdge _ (by show left.apply.tail < g.next + 1 + 1; omega) fr_b).bump.pushNode _).pushEdge _
+          (by show left.train.tail < g.next + 1 + 1 + 1; omega) fr_d
+      have w2 : Wired ge := trainIf_wired w1
+      exact (w2.pushEdge _ (by show g.next < ge.next; omega) fr_f).pushEdge _ (by show g.next + 2 < ge.next; omega) fr_g
+    -- every input in the extended graph
+    have gd_in : ∀ x k, gd.inputOf x k =
+        if g.next = x ∧ 0 = k then some left.apply.publisher
+        else if g.next + 2 = x ∧ 0 = k then some left.train.publisher else g.inputOf x k := by
+      intro x k
+      have e : gd.inputOf x k = ((g.inputOf x k).or (if g.next = x ∧ 0 = k then some left.apply.publisher else none)).or
+          (if g.next + 2 = x ∧ 0 = k then some left.train.publisher else none) := by
+        show (gc.pushEdge _).inputOf x k = _
+        rw [inputOf_pushEdge]
+        show ((gb.bump.pushNode _).inputOf x k).or _ = _
+        rw [inputOf_pushNode, inputOf_bump]
+        show ((ga.pushEdge _).inputOf x k).or _ = _
+        rw [inputOf_pushEdge]
+        rfl
+      rw [e]
+      by_cases h1 : g.next = x ∧ 0 = k
+      · obtain ⟨rfl, rfl⟩ := h1; rw [hin0 _ _ (Nat.le_refl _)]; simp
+      · by_cases h2 : g.next + 2 = x ∧ 0 = k
+        · obtain ⟨rfl, rfl⟩ := h2; rw [hin0 _ _ (by omega)]; simp
+        · simp [h1, h2]
+    have gg_old : ∀ n k, n ≠ g.next → n ≠ g.next + 2 → n ≠ gL.next → n ≠ gL.next + 2 → gg.inputOf n k = g.inputOf n k := by
+      intro n k n1 n2 n3 n4
+      have c1 : ¬ (g.next = n ∧ 0 = k) := fun e => n1 e.1.symm
+      have c2 : ¬ (g.next + 2 = n ∧ 0 = k) := fun e => n2 e.1.symm
+      have c3 : ¬ (gL.next = n ∧ done.length = k) := fun e => n3 e.1.symm
+      have c4 : ¬ (gL.next + 2 = n ∧ done.length = k) := fun e => n4 e.1.symm
+      rw [ig, gd_in]; simp [c1, c2, c3, c4]
+    have gg_u : ∀ k q, gg.inputOf g.next k = some q → q = left.apply.publisher := by
+      intro k q hq
+      have c3 : ¬ (gL.next = g.next ∧ done.length = k) := by omega
+      have c4 : ¬ (gL.next + 2 = g.next ∧ done.length = k) := by omega
+      rw [ig, gd_in, if_neg c3, if_neg c4] at hq
+      by_cases hk : 0 = k
+      · rw [if_pos ⟨rfl, hk⟩] at hq
+        simp at hq; exact hq.symm
+      · rw [if_neg (fun e => hk e.2), if_neg (fun e => hk e.2), hin0 g.next k (Nat.le_refl _)] at hq
+        simp at hq
+    have gg_u2 : ∀ k q, gg.inputOf (g.next + 2) k = some q → q = left.train.publisher := by
+      intro k q hq
+      have c1 : ¬ (g.next = g.next + 2 ∧ 0 = k) := by omega
+      have c3 : ¬ (gL.next = g.next + 2 ∧ done.length = k) := by omega
+      have c4 : ¬ (gL.next + 2 = g.next + 2 ∧ done.length = k) := by omega
+      rw [ig, gd_in, if_neg c3, if_neg c4, if_neg c1] at hq
+      by_cases hk : 0 = k
+      · rw [if_pos ⟨rfl, hk⟩] at hq
+        simp at hq; exact hq.symm
+      · rw [if_neg (fun e => hk e.2), hin0 (g.next + 2) k (by omega)] at hq
+        simp at hq
+    have gg_mono : ∀ n k q, g.inputOf n k = some q → gg.inputOf n k = some q := by
+      intro n k q hq
+      have hn : n < g.next := by
+        have := hb.edgesLt _ (inputOf_mem hq); exact this
+      have c1 : ¬ (g.next = n ∧ 0 = k) := by omega
+      have c2 : ¬ (g.next + 2 = n ∧ 0 = k) := by omega
+      rw [ig, gd_in]; simp [c1, c2, hq]
     -- the run up to the recursive call
     have hrun : ∀ g'', Run (mapReduceLoop left ⟨gL.next, gL.next + 1, ⟨reducer, false⟩, N, 1⟩
           ⟨gL.next + 2, gL.next + 1, ⟨reducer, false⟩, N, 1⟩ (done.length + 1) rest) gg () g'' →
@@ -131,32 +221,22 @@ theorem mr_loop {gL : Graph} {WL : World} (hiL : Inv gL WL) (left : Trunk) (N re
           ⟨gL.next + 2, gL.next + 1, ⟨reducer, false⟩, N, 1⟩ done.length (m :: rest)) g () g'' := by
       intro g'' hrest
       unfold mapReduceLoop
-      refine Run.bind (run_newWorker m 1 1 g) (Run.bind (run_subscribe _ _ _ ga ?_) (Run.bind (run_fork aA gb)
-        (Run.bind (run_subscribe _ _ _ gc ?_) ?_)))
-      · glook [hin0]
-      · glook [hin0]
-        omega
-      · refine run_trainIf m.stateful aA _ _ gd _ () g'' (fun h => h) (fun _ => td _ (by show g.next ≤ g.next + 1; omega)) ?_
-        refine Run.bind (run_subscribe _ _ _ ge ?_) (Run.bind (run_subscribe _ _ _ gf ?_) hrest)
-        · show ge.inputOf gL.next done.length = none
-          rw [trainIf_inputOf, hfd.input _ _ (by omega)]
-          exact h.freeA _ (Nat.le_refl _)
-        · show (ge.pushEdge _).inputOf (gL.next + 2) done.length = none
-          rw [inputOf_pushEdge, trainIf_inputOf, hfd.input _ _ (by omega), h.freeT _ (Nat.le_refl _)]
-          have : ¬ (gL.next = gL.next + 2 ∧ done.length = done.length) := by omega
-          simp [this]
+      refine Run.bind (run_newWorker m 1 1 g) (Run.bind (run_subscribe _ _ _ ga fr_b) (Run.bind (run_fork aA gb)
+        (Run.bind (run_subscribe _ _ _ gc fr_d) ?_)))
+      refine run_trainIf m.stateful aA _ _ gd _ () g'' (fun h => h) (fun _ => td _ (by show g.next ≤ g.next + 1; omega)) ?_
+      exact Run.bind (run_subscribe _ _ _ ge fr_f) (Run.bind (run_subscribe _ _ _ gf fr_g) hrest)
     -- certified valuation of the extended graph
     have hnlW : ∀ x, g.next ≤ x → ¬ W.live x := fun x hx hl => by have := hltW x hl; omega
     have hie : Inv ge W := h.inv.ofFrame hfe hbe
     have hif : Inv gf W := hie.pushEdge_notLive _ h.nlA (by show gL.next < ge.next; omega)
     have hig : Inv gg W := hif.pushEdge_notLive _ h.nlT (by show gL.next + 2 < ge.next; omega)
-    have stW : StateFor gg W (g.next + 1) m gL.next (trainedState m vt vl) := by
+    have stW : StateFor gg W (g.next + 1) m R (trainedState m vt vl) := by
       by_cases hsf : m.stateful = true
       · have ht : gg.trainerOf (g.next + 1) = some T := by
           rw [tg, td _ (by omega)]; simp [hsf]
-        have := StateFor.trained (g := gg) (W := W) (a := m) (r := gL.next) ht hsf rt rl
+        have := StateFor.trained (g := gg) (W := W) (a := m) (r := R) ht hsf rt rl
         simp only [trainedState, hsf, if_true]
-        show StateFor gg W (g.next + 1) m gL.next (.state m.tag .none vt vl)
+        show StateFor gg W (g.next + 1) m R (.state m.tag .none vt vl)
         have e1 : W.σ T.train = vt := wt
         have e2 : W.σ T.label = vl := wl
         rw [e1, e2] at this
@@ -168,10 +248,10 @@ theorem mr_loop {gL : Graph} {WL : World} (hiL : Inv gL WL) (left : Trunk) (N re
     have kgu2 : gg.kindOf (g.next + 2) = some (.worker (g.next + 1) m 1 1) := by rw [kg _ (by omega)]; exact kd_u2
     have igu : gg.inputOf g.next 0 = some left.apply.publisher := by rw [ig, id_u]; simp
     have igu2 : gg.inputOf (g.next + 2) 0 = some left.train.publisher := by rw [ig, id_u2]; simp
-    have hrk : gL.next < gg.next := by rw [hngg]; omega
-    have hi1 := hig.liveUnary g.next (g.next + 1) m left.apply.publisher gL.next (trainedState m vt vl) kgu
+    have hrk : R < gg.next := by rw [hngg]; omega
+    have hi1 := hig.liveUnary g.next (g.next + 1) m left.apply.publisher R (trainedState m vt vl) kgu
       (hnlW _ (Nat.le_refl _)) hrk igu ra stW
-    let W1 := W.set g.next (fun _ => .apply m.tag (trainedState m vt vl) [W.σ left.apply.publisher]) gL.next
+    let W1 := W.set g.next (fun _ => .apply m.tag (trainedState m vt vl) [W.σ left.apply.publisher]) R
     have hnl1 : ¬ W1.live (g.next + 2) := by
       intro hl; rcases hl with hl | hl
       · omega
@@ -184,9 +264,9 @@ theorem mr_loop {gL : Graph} {WL : World} (hiL : Inv gL WL) (left : Trunk) (N re
       intro q hq
       have : q.node ≠ g.next := fun e => hnlW _ (Nat.le_refl _) (e ▸ hq)
       exact set_σ_other _ _ _ _ _ this
-    have hi2 := hi1.liveUnary (g.next + 2) (g.next + 1) m left.train.publisher gL.next (trainedState m vt vl) kgu2
+    have hi2 := hi1.liveUnary (g.next + 2) (g.next + 1) m left.train.publisher R (trainedState m vt vl) kgu2
       hnl1 hrk igu2 (lift1 _ _ rt) (stW.set _ _ _ (hnlW _ (Nat.le_refl _)))
-    let W2 := W1.set (g.next + 2) (fun _ => .apply m.tag (trainedState m vt vl) [W1.σ left.train.publisher]) gL.next
+    let W2 := W1.set (g.next + 2) (fun _ => .apply m.tag (trainedState m vt vl) [W1.σ left.train.publisher]) R
     have lift2 : ∀ q : PubRef, ∀ r', RefOk W q r' → RefOk W2 q r' := by
       intro q r' hq
       have h1 := lift1 q r' hq
@@ -213,24 +293,24 @@ theorem mr_loop {gL : Graph} {WL : World} (hiL : Inv gL WL) (left : Trunk) (N re
         rw [σ1 _ rt.1]; exact wt
       rw [this]; rfl
     have live2 : ∀ x, W2.live x ↔ (x = g.next + 2 ∨ x = g.next ∨ W.live x) := fun x => Iff.rfl
-    have h2u : W2.h g.next = gL.next := by
+    have h2u : W2.h g.next = R := by
       show (W1.set _ _ _).h g.next = _
       rw [set_h_other _ _ _ _ _ (by omega)]
       show (W.set _ _ _).h g.next = _
       rw [set_h_self]
-    have h2u2 : W2.h (g.next + 2) = gL.next := by
+    have h2u2 : W2.h (g.next + 2) = R := by
       show (W1.set _ _ _).h (g.next + 2) = _
       rw [set_h_self]
     -- the invariant for the rest of the loop
     have gdin : ∀ x k, x < g.next → gd.inputOf x k = g.inputOf x k := fun x k hx => hfd.input x k hx
     have ndl : ¬ (gL.next + 2 = gL.next ∧ done.length = done.length) := by omega
     have ndl' : ¬ (gL.next = gL.next + 2 ∧ done.length = done.length) := by omega
-    have hnext : MRInv gL WL N reducer va vt (fun m => trainedState m vt vl) gg W2 (done ++ [m])
+    have hnext : MRInv gL WL left R N reducer va vt (fun m => trainedState m vt vl) gg W2 (done ++ [m])
         (fun k => if k = done.length then ⟨g.next, 0⟩ else insA k)
         (fun k => if k = done.length then ⟨g.next + 2, 0⟩ else insT k) := by
       refine ⟨hi2, ((h.frame.trans hfe).pushEdge _ (Nat.le_refl _)).pushEdge _ (by show gL.next ≤ gL.next + 2; omega),
         (h.agree.set _ _ _ (by omega)).set _ _ _ (by omega), by rw [hngg]; omega, ?_, ?_, ?_, ?_, ?_, ?_, ?_, ?_, ?_, ?_,
-        ?_, ?_, ?_⟩
+        ?_, ?_, ?_, hwgg, ?_, ?_, ?_, ?_⟩
       · rw [kg _ (by omega), kd_old _ (by omega)]; exact h.kA
       · rw [kg _ (by omega), kd_old _ (by omega)]; exact h.kT
       · intro hl; rcases (live2 _).mp hl with hl | hl | hl
@@ -354,18 +434,105 @@ theorem mr_loop {gL : Graph} {WL : World} (hiL : Inv gL WL) (left : Trunk) (N re
         · have hnlt := hltW n hl
           rw [kg n (by omega), kd_old n hnlt] at hk
           exact h.fresh n hn hl gid a i o hk
+      · -- ranks of the live new nodes
+        intro n hn hl
+        rcases (live2 _).mp hl with hl | hl | hl
+        · subst hl; exact h2u2
+        · subst hl; exact h2u
+        · have e1 : n ≠ g.next := fun e => hnlW _ (Nat.le_refl _) (e ▸ hl)
+          have e2 : n ≠ g.next + 2 := fun e => hnlW _ (by omega) (e ▸ hl)
+          show (W1.set _ _ _).h n = R
+          rw [set_h_other _ _ _ _ _ e2]
+          show (W.set _ _ _).h n = R
+          rw [set_h_other _ _ _ _ _ e1]
+          exact h.rankNew n hn hl
+      · -- classification of the subscriptions
+        intro n k q hn hq
+        by_cases e1 : n = g.next
+        · subst e1
+          refine Or.inr (Or.inr (Or.inl ⟨by omega, by omega, (live2 _).mpr (Or.inr (Or.inl rfl)), gg_u k q hq, gg_u⟩))
+        · by_cases e2 : n = g.next + 2
+          · subst e2
+            exact Or.inr (Or.inr (Or.inr ⟨by omega, by omega, (live2 _).mpr (Or.inl rfl), gg_u2 k q hq, gg_u2⟩))
+          · by_cases e3 : n = gL.next
+            · subst e3
+              rw [List.length_append, List.length_singleton]
+              by_cases hk : k = done.length
+              · subst hk
+                rw [ig, gdin _ _ (by omega), h.freeA _ (Nat.le_refl _)] at hq
+                simp at hq
+                exact Or.inl ⟨rfl, by omega, by simp [hq]⟩
+              · have c3 : ¬ (gL.next = gL.next ∧ done.length = k) := fun e => hk e.2.symm
+                have c4 : ¬ (gL.next + 2 = gL.next ∧ done.length = k) := by omega
+                rw [ig, gdin _ _ (by omega), if_neg c3, if_neg c4] at hq
+                simp at hq
+                rcases h.cls _ k q (Nat.le_refl _) hq with ⟨_, hk', hq'⟩ | ⟨hx, _⟩ | ⟨hx, _⟩ | ⟨hx, _⟩
+                · exact Or.inl ⟨rfl, by omega, by simp [hk, hq']⟩
+                · omega
+                · exact absurd rfl hx
+                · exact absurd rfl hx
+            · by_cases e4 : n = gL.next + 2
+              · subst e4
+                rw [List.length_append, List.length_singleton]
+                by_cases hk : k = done.length
+                · subst hk
+                  rw [ig, gdin _ _ (by omega), h.freeT _ (Nat.le_refl _)] at hq
+                  simp [ndl'] at hq
+                  exact Or.inr (Or.inl ⟨rfl, by omega, by simp [hq]⟩)
+                · have c3 : ¬ (gL.next = gL.next + 2 ∧ done.length = k) := by omega
+                  have c4 : ¬ (gL.next + 2 = gL.next + 2 ∧ done.length = k) := fun e => hk e.2.symm
+                  rw [ig, gdin _ _ (by omega), if_neg c3, if_neg c4] at hq
+                  simp at hq
+                  rcases h.cls _ k q (by omega) hq with ⟨hx, _⟩ | ⟨_, hk', hq'⟩ | ⟨_, hx, _⟩ | ⟨_, hx, _⟩
+                  · omega
+                  · exact Or.inr (Or.inl ⟨rfl, by omega, by simp [hk, hq']⟩)
+                  · exact absurd rfl hx
+                  · exact absurd rfl hx
+              · rw [gg_old n k e1 e2 e3 e4] at hq
+                rcases h.cls n k q hn hq with ⟨hx, _⟩ | ⟨hx, _⟩ | ⟨_, _, hl, hq', hall⟩ | ⟨_, _, hl, hq', hall⟩
+                · exact absurd hx e3
+                · exact absurd hx e4
+                · refine Or.inr (Or.inr (Or.inl ⟨e3, e4, (live2 _).mpr (Or.inr (Or.inr hl)), hq', ?_⟩))
+                  intro k' q' hq''
+                  rw [gg_old n k' e1 e2 e3 e4] at hq''
+                  exact hall k' q' hq''
+                · refine Or.inr (Or.inr (Or.inr ⟨e3, e4, (live2 _).mpr (Or.inr (Or.inr hl)), hq', ?_⟩))
+                  intro k' q' hq''
+                  rw [gg_old n k' e1 e2 e3 e4] at hq''
+                  exact hall k' q' hq''
+      · intro k hk
+        rw [List.length_append, List.length_singleton] at hk
+        by_cases hkd : k = done.length
+        · subst hkd
+          simp only [↓reduceIte]
+          exact ⟨by omega, igu⟩
+        · simp only [hkd, if_false]
+          obtain ⟨c1, c2⟩ := h.srcA k (by omega)
+          exact ⟨c1, gg_mono _ _ _ c2⟩
+      · intro k hk
+        rw [List.length_append, List.length_singleton] at hk
+        by_cases hkd : k = done.length
+        · subst hkd
+          simp only [↓reduceIte]
+          exact ⟨by show gL.next + 3 ≤ g.next + 2; omega, igu2⟩
+        · simp only [hkd, if_false]
+          obtain ⟨c1, c2⟩ := h.srcT k (by omega)
+          exact ⟨c1, gg_mono _ _ _ c2⟩
     obtain ⟨g', W', insA', insT', hrest, hfin⟩ := ih gg W2 (done ++ [m]) _ _ hnext
     have e : (done ++ [m]).length = done.length + 1 := by simp
     rw [e] at hrest
     exact ⟨g', W', insA', insT', hrun g' hrest, by simpa [List.append_assoc] using hfin⟩
 
-theorem spec_mapreduce {scope : GraphM Trunk} {S : Scope} (hs : Spec scope S) (ms : List Actor) (reducer : Nat) :
-    Spec (composeMapReduce ms reducer scope) (denoteMapReduce ms reducer S) := by
-  intro g W xa xt xl r hi hr
-  obtain ⟨left, g1, W1, hrun1, h1⟩ := hs g W xa xt xl r hi hr
-  let R : Actor := ⟨reducer, false⟩
-  let g2 := g1.bump.bump.pushNode ⟨g1.next, .worker (g1.next + 1) R ms.length 1⟩
-  let g3 := g2.bump.pushNode ⟨g1.next + 2, .worker (g1.next + 1) R ms.length 1⟩
+theorem spec_mapreduce {full : Prop} {scope : GraphM Trunk} {S : Scope} (hs : Spec full scope S) (ms : List Actor)
+    (hms : ms ≠ []) (reducer : Nat) : Spec full (composeMapReduce ms reducer scope) (denoteMapReduce ms reducer S) := by
+  intro g W xa xt xl r hi hw hr
+  obtain ⟨left, g1, W1, hrun1, h1⟩ := hs g W xa xt xl r hi hw hr
+  have hgg := h1.frame.next_le
+  obtain ⟨R, hR⟩ : ∃ R, R = r + (g1.next - g.next) := ⟨_, rfl⟩
+  have hRle : R ≤ g1.next := by omega
+  let Rd : Actor := ⟨reducer, false⟩
+  let g2 := g1.bump.bump.pushNode ⟨g1.next, .worker (g1.next + 1) Rd ms.length 1⟩
+  let g3 := g2.bump.pushNode ⟨g1.next + 2, .worker (g1.next + 1) Rd ms.length 1⟩
   have hb1 := h1.inv.bounded
   have hk0 : ∀ u, g1.next ≤ u → g1.kindOf u = none := fun u hu => hb1.kindOf_none hu
   have hin0 : ∀ u k, g1.next ≤ u → g1.inputOf u k = none := fun u k hu => hb1.inputOf_none hu k
@@ -373,10 +540,12 @@ theorem spec_mapreduce {scope : GraphM Trunk} {S : Scope} (hs : Spec scope S) (m
     (by gnext) (by intro _ _ _ _ h; cases h; gnext)
   have hf3 : Frame g1 g3 := ((Frame.refl g1).bump.bump.pushNode _ (Nat.le_refl _)).bump.pushNode _ (by gnext)
   have hnl : ∀ u, g1.next ≤ u → ¬ W1.live u := fun u hu h => by have := (h1.inv.liveLt u h).1; omega
-  have h0 : MRInv g1 W1 ms.length reducer (S xa xt xl).apply (S xa xt xl).train
+  have hin3 : ∀ u k, g3.inputOf u k = g1.inputOf u k := fun u k => rfl
+  have h0 : MRInv g1 W1 left R ms.length reducer (S xa xt xl).apply (S xa xt xl).train
       (fun m => trainedState m (S xa xt xl).train (S xa xt xl).label) g3 W1 [] (fun _ => default) (fun _ => default) := by
     refine ⟨h1.inv.ofFrame hf3 hb3, hf3, Agree.refl _ _, by show g1.next + 3 ≤ g1.next + 1 + 1 + 1; omega, ?_, ?_,
-      hnl _ (Nat.le_refl _), hnl _ (by omega), ?_, ?_, ?_, ?_, rfl, rfl, ?_, ⟨[], ?_, ?_, rfl⟩, ?_⟩
+      hnl _ (Nat.le_refl _), hnl _ (by omega), ?_, ?_, ?_, ?_, rfl, rfl, ?_, ⟨[], ?_, ?_, rfl⟩, ?_,
+      (h1.wired.bump.bump.pushNode _).bump.pushNode _, ?_, ?_, ?_, ?_⟩
     · glook [hk0]
     · glook [hk0]
     · intro k hk; cases hk
@@ -388,18 +557,29 @@ theorem spec_mapreduce {scope : GraphM Trunk} {S : Scope} (hs : Spec scope S) (m
       simp
     · intro t ht; cases ht
     · intro n hn hl; exact absurd hl (hnl n hn)
-  obtain ⟨g', W', insA, insT, hloop, h'⟩ := mr_loop h1.inv left ms.length reducer _ _ _ h1.ta h1.tt h1.tl ms g3 W1 [] _ _ h0
+    · intro n hn hl; exact absurd hl (hnl n hn)
+    · intro n k q hn hq
+      rw [hin3, hin0 n k hn] at hq; cases hq
+    · intro k hk; cases hk
+    · intro k hk; cases hk
+  obtain ⟨g', W', insA, insT, hloop, h'⟩ := mr_loop h1.inv left R hRle ms.length reducer _ _ _ h1.ta h1.tt h1.tl
+    (by rw [hR]; exact h1.rank _ h1.tails_ge.1 h1.ta.1) (by rw [hR]; exact h1.rank _ h1.tails_ge.2.1 h1.tt.1)
+    (by rw [hR]; exact h1.rank _ h1.tails_ge.2.2 h1.tl.1) ms g3 W1 [] _ _ h0
   rw [List.nil_append] at h'
   have hrun : Run (composeMapReduce ms reducer scope) g
       ⟨⟨left.apply.head, g1.next⟩, ⟨left.train.head, g1.next + 2⟩, left.label⟩ g' := by
     unfold composeMapReduce
-    exact Run.bind hrun1 (Run.bind (run_newWorker R ms.length 1 g1) (Run.bind (run_fork _ g2) (Run.bind hloop (Run.pure _ _))))
+    exact Run.bind hrun1 (Run.bind (run_newWorker Rd ms.length 1 g1) (Run.bind (run_fork _ g2) (Run.bind hloop (Run.pure _ _))))
   have hge := h'.next_ge
+  have hlen : 0 < ms.length := by
+    cases ms with
+    | nil => exact absurd rfl hms
+    | cons _ _ => simp
   -- the two reducers become live
-  have hiA := h'.inv.liveWorker g1.next (g1.next + 1) R ms.length 1 insA (g1.next + 1) .none h'.kA h'.nlA (by omega)
+  have hiA := h'.inv.liveWorker g1.next (g1.next + 1) Rd ms.length 1 insA (R + 1) .none h'.kA h'.nlA (by omega)
     h'.inA (StateFor.stateless rfl)
   let WA := W'.set g1.next
-    (fun i => portVal 1 i (.apply R.tag .none ((List.range ms.length).map (fun k => W'.σ (insA k))))) (g1.next + 1)
+    (fun i => portVal 1 i (.apply Rd.tag .none ((List.range ms.length).map (fun k => W'.σ (insA k))))) (R + 1)
   have hnlT : ¬ WA.live (g1.next + 2) := by
     intro hl; rcases hl with hl | hl
     · omega
@@ -412,25 +592,70 @@ theorem spec_mapreduce {scope : GraphM Trunk} {S : Scope} (hs : Spec scope S) (m
     intro q hq
     have : q.node ≠ g1.next := fun e => h'.nlA (e ▸ hq)
     exact set_σ_other _ _ _ _ _ this
-  have hiT := hiA.liveWorker (g1.next + 2) (g1.next + 1) R ms.length 1 insT (g1.next + 1) .none h'.kT hnlT (by omega)
+  have hiT := hiA.liveWorker (g1.next + 2) (g1.next + 1) Rd ms.length 1 insT (R + 1) .none h'.kT hnlT (by omega)
     (fun k hk => ⟨(h'.inT k hk).1, liftA _ _ (h'.inT k hk).2⟩) (StateFor.stateless rfl)
   let WT := WA.set (g1.next + 2)
-    (fun i => portVal 1 i (.apply R.tag .none ((List.range ms.length).map (fun k => WA.σ (insT k))))) (g1.next + 1)
+    (fun i => portVal 1 i (.apply Rd.tag .none ((List.range ms.length).map (fun k => WA.σ (insT k))))) (R + 1)
   have σT : ∀ q : PubRef, W'.live q.node → WT.σ q = W'.σ q := by
     intro q hq
     have : q.node ≠ g1.next + 2 := fun e => h'.nlT (e ▸ hq)
     show (WA.set _ _ _).σ q = _
     rw [set_σ_other _ _ _ _ _ this]
     exact σA q hq
+  have hT : ∀ n, W'.live n → WT.h n = W'.h n := by
+    intro n hn
+    have e1 : n ≠ g1.next := fun e => h'.nlA (e ▸ hn)
+    have e2 : n ≠ g1.next + 2 := fun e => h'.nlT (e ▸ hn)
+    show (WA.set _ _ _).h n = _
+    rw [set_h_other _ _ _ _ _ e2]
+    show (W'.set _ _ _).h n = _
+    rw [set_h_other _ _ _ _ _ e1]
   have liveT : ∀ x, WT.live x ↔ (x = g1.next + 2 ∨ x = g1.next ∨ W'.live x) := fun x => Iff.rfl
   have hlt' : ∀ n, W1.live n → n < g1.next := fun n hn => (h1.inv.liveLt n hn).1
   have old : ∀ u, W1.live u → WT.live u ∧ WT.σ ⟨u, 0⟩ = W1.σ ⟨u, 0⟩ := by
     intro u hu
     obtain ⟨a1, _, a3⟩ := h'.agree u (hlt' u hu)
     exact ⟨(liveT _).mpr (Or.inr (Or.inr (a1.mpr hu))), by rw [σT ⟨u, 0⟩ (a1.mpr hu)]; exact a3 0⟩
+  -- reachability in the final graph
+  have mono1 : ∀ s k q, g1.inputOf s k = some q → g'.inputOf s k = some q := h'.frame.input_mono hb1
+  have reA : full → Reach g' left.apply.head left.apply.tail := fun hfull => (h1.regTail hfull).mono mono1
+  have noT : full → ¬ Reach g' left.apply.head left.train.tail := fun hfull hre =>
+    (h1.sep hfull).1 (Reach.old h'.frame h1.wired (hlt' _ h1.tt.1) hre)
+  have reInsA : full → ∀ k, k < ms.length → Reach g' left.apply.head (insA k).node := fun hfull k hk =>
+    Reach.one (reA hfull) (h'.srcA k hk).2
+  have noInsT : full → ∀ k, k < ms.length → ¬ Reach g' left.apply.head (insT k).node := by
+    intro hfull k hk hre
+    obtain ⟨hx3, hx0⟩ := h'.srcT k hk
+    have hne : (insT k).node ≠ left.apply.head := by
+      have := (h1.inv.liveLt _ h1.ha.live).1; omega
+    rcases hre.inv with e | ⟨k', q', hq', hr'⟩
+    · exact hne e
+    · rcases h'.cls _ k' q' (by omega) hq' with ⟨e, _, _⟩ | ⟨e, _, _⟩ | ⟨_, _, _, _, hall⟩ | ⟨_, _, _, hq'', _⟩
+      · omega
+      · omega
+      · -- an applier of the train side fed by the apply tail: the two tails would coincide
+        have e := hall 0 _ hx0
+        have e' : left.train.tail = left.apply.tail := by
+          have := congrArg PubRef.node e; exact this
+        exact (h1.sep hfull).1 (e' ▸ h1.regTail hfull)
+      · rw [hq''] at hr'
+        exact noT hfull hr'
+  have hinA0 : g'.inputOf g1.next 0 = some (insA 0) := (h'.inA 0 hlen).1
+  have reRA : full → Reach g' left.apply.head g1.next := fun hfull => Reach.one (reInsA hfull 0 hlen) hinA0
+  have noRT : full → ¬ Reach g' left.apply.head (g1.next + 2) := by
+    intro hfull hre
+    have hne : g1.next + 2 ≠ left.apply.head := by
+      have := (h1.inv.liveLt _ h1.ha.live).1; omega
+    rcases hre.inv with e | ⟨k', q', hq', hr'⟩
+    · exact hne e
+    · rcases h'.cls _ k' q' (by omega) hq' with ⟨e, _, _⟩ | ⟨_, hk', e⟩ | ⟨_, e, _⟩ | ⟨_, e, _⟩
+      · omega
+      · rw [e] at hr'; exact noInsT hfull k' hk' hr'
+      · exact e rfl
+      · exact e rfl
   refine ⟨_, g', WT, hrun, h1.step hiT h'.frame ((h'.agree.set _ _ _ (Nat.le_refl _)).set _ _ _ (by omega)) ?_
     ⟨⟨left.apply.head, g1.next⟩, ⟨left.train.head, g1.next + 2⟩, left.label⟩ rfl rfl rfl
-    (denoteMapReduce ms reducer S xa xt xl) ?_ ?_ ?_ ?_ ?_⟩
+    (denoteMapReduce ms reducer S xa xt xl) ?_ ?_ ?_ ?_ ?_ ?_⟩
   · intro n hn hl ho
     rcases (liveT _).mp hl with hl | hl | hl
     · subst hl; rw [Graph.isOpen, h'.kT] at ho; cases ho.1
@@ -441,7 +666,7 @@ theorem spec_mapreduce {scope : GraphM Trunk} {S : Scope} (hs : Spec scope S) (m
     rw [set_σ_other _ _ _ _ _ (by show g1.next ≠ g1.next + 2; omega)]
     show (W'.set _ _ _).σ ⟨g1.next, 0⟩ = _
     rw [set_σ_self, h'.valA]
-    simp [portVal, denoteMapReduce, R]
+    simp [portVal, denoteMapReduce, Rd]
   · refine ⟨(liveT _).mpr (Or.inl rfl), ?_⟩
     show (WA.set _ _ _).σ ⟨g1.next + 2, 0⟩ = _
     rw [set_σ_self]
@@ -450,7 +675,7 @@ theorem spec_mapreduce {scope : GraphM Trunk} {S : Scope} (hs : Spec scope S) (m
       intro k hk
       exact σA _ (h'.inT k (List.mem_range.mp hk)).2.1
     rw [this, h'.valT]
-    simp [portVal, denoteMapReduce, R]
+    simp [portVal, denoteMapReduce, Rd]
   · obtain ⟨l1, l2⟩ := old _ h1.tl.1
     exact ⟨l1, by rw [l2]; exact h1.tl.2⟩
   · obtain ⟨ts, e, l, mm⟩ := h'.trains
@@ -467,5 +692,41 @@ theorem spec_mapreduce {scope : GraphM Trunk} {S : Scope} (hs : Spec scope S) (m
     · subst hl; rw [h'.kT] at hk; cases hk; omega
     · subst hl; rw [h'.kA] at hk; cases hk; omega
     · exact h'.fresh n hn hl gid a i o hk
+  · refine ⟨h'.wired, ⟨by show g.next ≤ g1.next; omega, by show g.next ≤ g1.next + 2; omega, h1.tails_ge.2.2⟩, ?_, ?_, reRA,
+      fun hfull => ⟨noRT hfull, fun hre => (h1.sep hfull).2 (Reach.old h'.frame h1.wired (hlt' _ h1.tl.1) hre)⟩, ?_⟩
+    · intro n hn hl
+      rcases (liveT _).mp hl with hl | hl | hl
+      · subst hl
+        show (WA.set _ _ _).h (g1.next + 2) < _
+        rw [set_h_self, hR]; omega
+      · subst hl
+        show (WA.set _ _ _).h g1.next < _
+        rw [set_h_other _ _ _ _ _ (by omega)]
+        show (W'.set _ _ _).h g1.next < _
+        rw [set_h_self, hR]; omega
+      · rw [hT n hl, h'.rankNew n hn hl, hR]; omega
+    · intro hfull n hn hre hne
+      rcases hre.inv with e | ⟨k0, q0, hq0, hr0⟩
+      · exact absurd e hne
+      · rcases h'.cls n k0 q0 hn hq0 with ⟨e, _, _⟩ | ⟨e, _, _⟩ | ⟨_, _, hl, _, hall⟩ | ⟨_, _, _, e, _⟩
+        · subst e
+          refine ⟨(liveT _).mpr (Or.inr (Or.inl rfl)), ?_⟩
+          intro k q hq
+          rcases h'.cls _ k q (Nat.le_refl _) hq with ⟨_, hk', e'⟩ | ⟨e', _⟩ | ⟨e', _⟩ | ⟨e', _⟩
+          · rw [e']; exact reInsA hfull k hk'
+          · omega
+          · exact absurd rfl e'
+          · exact absurd rfl e'
+        · subst e; exact absurd hre (noRT hfull)
+        · refine ⟨(liveT _).mpr (Or.inr (Or.inr hl)), ?_⟩
+          intro k q hq
+          rw [hall k q hq]; exact reA hfull
+        · rw [e] at hr0; exact absurd hr0 (noT hfull)
+    · intro _ s k q hs hq
+      rcases h'.cls s k q hs hq with ⟨_, hk', e⟩ | ⟨_, hk', e⟩ | ⟨_, _, _, e, _⟩ | ⟨_, _, _, e, _⟩
+      · rw [e]; have := (h'.srcA k hk').1; omega
+      · rw [e]; have := (h'.srcT k hk').1; omega
+      · rw [e]; exact h1.tails_ge.1
+      · rw [e]; exact h1.tails_ge.2.1
 
 end ForML.Compose
